@@ -111,14 +111,69 @@ def meta(nd):
 _DATASET_CLS = None  # set by the call-history part to the Dataset class of the freshly re-imported module
 
 
+_LAYOUT = None  # memory layout of the array handed to Dataset.from_array (None = plain C-contiguous copy)
+_LAST_SOURCE = None  # (source array, flags/strides snapshot) of the most recent dataset() call, for the "source untouched" check
+LAYOUTS = ["C", "F", "T", "permuted", "strided", "negative_strides", "readonly", "broadcast"]
+
+
+def layout_array(a, layout):
+    """An array with the LOGICAL contents of `a` in the requested memory layout."""
+    if layout == "C":
+        return a.copy()
+    if layout == "F":
+        return np.asfortranarray(a.copy())
+    if layout == "T":  # full transpose view of a C-contiguous array
+        return np.ascontiguousarray(a.T).T
+    if layout == "permuted":  # first axis stored last: neither C- nor F-contiguous for >= 3-D
+        return np.moveaxis(np.ascontiguousarray(np.moveaxis(a, 0, -1)), -1, 0)
+    if layout == "strided":  # every second element of a larger buffer, offset 1
+        big = np.zeros(tuple(2 * n + 1 for n in a.shape), dtype=a.dtype)
+        view = big[tuple(slice(1, None, 2) for _ in a.shape)]
+        view[...] = a
+        return view
+    if layout == "negative_strides":
+        rev = tuple(slice(None, None, -1) for _ in a.shape)
+        return a[rev].copy()[rev]
+    if layout == "readonly":
+        x = a.copy()
+        x.flags.writeable = False
+        return x
+    if layout == "broadcast":  # zero stride along axis 0, read-only; the logical array must be constant along axis 0
+        return np.broadcast_to(a[:1].copy(), a.shape)
+    raise ValueError(layout)
+
+
+def logical_for(a, layout):
+    """The logical contents a layout can hold: everything, except that a broadcast view is constant along axis 0."""
+    if layout == "broadcast":
+        return np.ascontiguousarray(np.broadcast_to(a[:1], a.shape))
+    return a
+
+
+def source_problem(a):
+    """The array that was handed to Dataset.from_array must keep its bytes, flags and strides."""
+    if _LAST_SOURCE is None:
+        return None
+    x, snap = _LAST_SOURCE
+    now = (x.flags.writeable, x.flags.c_contiguous, x.flags.f_contiguous, x.strides, x.shape, x.dtype)
+    if now != snap:
+        return f"flags/strides/shape of the source array changed from {snap} to {now}"
+    if not np.array_equal(x, a, equal_nan=True):
+        return "the contents of the source array changed"
+    return None
+
+
 def dataset(a):
+    global _LAST_SOURCE
     if _DATASET_CLS is not None:
         Dataset = _DATASET_CLS
     else:
         from quantem.core.datastructures import Dataset
 
     origin, sampling, units = meta(a.ndim)
-    return Dataset.from_array(a.copy(), origin=list(origin), sampling=list(sampling), units=list(units))
+    x = a.copy() if _LAYOUT is None else layout_array(a, _LAYOUT)
+    _LAST_SOURCE = (x, (x.flags.writeable, x.flags.c_contiguous, x.flags.f_contiguous, x.strides, x.shape, x.dtype))
+    return Dataset.from_array(x, origin=list(origin), sampling=list(sampling), units=list(units))
 
 
 def wide(a):
@@ -1135,6 +1190,332 @@ def history_item(item, seed=0, depth=2, quick=True):
     return t
 
 
+# ============================================================================= MEMORY LAYOUTS and ARGUMENT SPELLINGS
+# Two cross-cutting dimensions on a sub-lattice of the three operations.
+# (a) layout of the array handed to Dataset.from_array (the library keeps that array, it does not copy): C, Fortran, transposed view,
+#     axis-permuted view, strided view of a larger buffer, negative strides, read-only, broadcast view (zero stride, read-only), incl.
+#     size-1 corners. The oracles work on the LOGICAL contents, so they are layout-independent by construction; the source array must
+#     keep its bytes, flags and strides. On HEAD no operation writes into the source, so read-only / broadcast sources must work in-place too.
+# (b) spellings of the arguments: reducer in other letter cases, factors / out_shape / widths / axes as NumPy integer scalars, 0-d arrays,
+#     lists, tuples, ndarrays, float32 ... Differential oracle: a spelling is either REJECTED (an exception, and the dataset — array,
+#     origin, sampling — exactly as before, in-place variants included) or gives the BIT-IDENTICAL result of the canonical spelling.
+#     Accepted / rejected counts per spelling are written to the evidence, so a flip is visible.
+def _factors_123(shape, axes):
+    return list(itertools.product([1, 2, 3], repeat=len(axes)))
+
+
+def layout_shapes(op, quick):
+    if op == "bin":
+        return [(4, 6), (5, 4), (1, 1), (4, 3, 4)] if quick else [(4, 6), (5, 4), (6, 6), (1, 1), (7,), (4, 3, 4), (2, 4, 6), (2, 2, 4, 2)]
+    if op == "resample":
+        return [(4, 5), (1, 1), (3, 4, 3)] if quick else [(4, 5), (5, 4), (1, 1), (6,), (3, 4, 3), (2, 3, 4)]
+    return [(3, 4), (1, 1), (2, 3, 2)] if quick else [(3, 4), (4, 3), (1, 1), (5,), (2, 3, 2), (3, 2, 2)]
+
+
+def layout_items(quick):
+    dts = ["float64", "int16"] if quick else DTYPES
+    items = []
+    for op in ("bin", "resample", "pad"):
+        for shape in layout_shapes(op, quick):
+            for dt in (dts if op != "resample" or not quick else ["float64", "complex64"]):
+                items.append((op, shape, dt))
+    return items
+
+
+def layout_calls(op, shape, dtype):
+    """The reduced lattice of one operation as call descriptors (same format as the call-history alphabet)."""
+    nd = len(shape)
+    out = []
+    if op == "bin":
+        for axes in axis_subsets(nd):
+            for fac in _factors_123(shape, axes):
+                for red in REDUCERS:
+                    for mode in MODES:
+                        out.append({"op": "bin", "shape": list(shape), "dtype": dtype, "axes": list(axes), "factors": list(fac), "reducer": red, "mode": mode, "spelling": "tuple"})
+    elif op == "resample":
+        for axes in axis_subsets(nd):
+            for o in itertools.product(*[sorted({max(1, shape[ax] - 1), shape[ax] + 1, 2 * shape[ax]}) for ax in axes]):
+                for mode in MODES:
+                    out.append({"op": "resample", "part": "layout", "shape": list(shape), "dtype": dtype, "axes": list(axes), "out": list(o), "form": "out_shape", "spelling": "tuple", "mode": mode})
+    else:
+        for extra in itertools.product(range(3), repeat=nd):
+            for mode in MODES:
+                for style in ("all", "axis_by_axis"):
+                    out.append({"op": "pad", "shape": list(shape), "dtype": dtype, "pad_kind": "output_shape", "widths": [list(widths_for(e)) for e in extra], "mode": mode, "crop_style": style})
+    return out
+
+
+def do_call_on(c, a):
+    """Like do_call but on a given logical array."""
+    if c["op"] == "bin":
+        return check_bin(a, wide(a).ravel().tolist(), {}, tuple(c["axes"]), tuple(c["factors"]), c["reducer"], c["mode"], c["spelling"])
+    if c["op"] == "resample":
+        return check_resample(a, tuple(c["axes"]), tuple(c["out"]), c["form"], c["spelling"], c["mode"])
+    return check_pad(a, c["pad_kind"], tuple(tuple(w) for w in c["widths"]), c["mode"], c["crop_style"])
+
+
+def layout_item(item, seed=0):
+    global _LAYOUT, _LAST_SOURCE
+    op, shape, dtype = item[0], tuple(item[1]), item[2]
+    base = make_array(shape, dtype, seed, tag=8)
+    calls = layout_calls(op, shape, dtype)
+    order = BIN_ORDER + FR_ORDER + PAD_ORDER + ["source_array_untouched"]
+    t = Tally()
+    with FreshModule() as fm:
+        fm.fresh()
+        try:
+            for layout in LAYOUTS:
+                a = logical_for(base, layout)
+                for c in calls:
+                    _LAYOUT, _LAST_SOURCE = layout, None
+                    status, probs, info = do_call_on(c, a)
+                    sp = source_problem(a)
+                    if sp:
+                        probs.append(("source_array_untouched", sp))
+                    _LAYOUT = None
+                    case = dict(c, op_kind=c["op"], layout=layout)
+                    case["op"] = "layout"
+                    if probs:
+                        probs.sort(key=lambda q: order.index(q[0]))
+                        more = f" [also: {', '.join(r for r, _ in probs[1:])}]" if len(probs) > 1 else ""
+                        t.fail({"op": c["op"], "relation": probs[0][0], "layout": layout, "via": "layout"}, case, f"source array in layout '{layout}': {call_text(c)}: {probs[0][1]}{more}")
+                    out_shape = info.get("out_shape")
+                    nontrivial = layout != "C" and status == "ok" and out_shape is not None and (tuple(out_shape) != shape or c["op"] == "pad")
+                    t.case(key=("layout", layout, json_key(c)) if nontrivial else None, nontrivial=nontrivial, outcome=("layout", c["op"], layout, status, out_shape, not probs))
+                    t.extra["layout_points"] += 1
+                    t.extra["layout_points_" + layout] += 1
+        finally:
+            _LAYOUT, _LAST_SOURCE = None, None
+    return t
+
+
+def json_key(c):
+    import json
+
+    return json.dumps(c, sort_keys=True, default=repr)
+
+
+# ---- spellings
+def _i64(x):
+    return np.int64(x)
+
+
+def _u8(x):
+    return np.uint8(x)
+
+
+def _zero_d(x):
+    return np.array(x)
+
+
+def seq_spellings(vals, floats=False):
+    """Other ways to write a tuple of numbers."""
+    vals = list(vals)
+    sp = {
+        "list": list(vals),
+        "ndarray": np.array(vals),
+        "tuple_np_int64": tuple(np.int64(v) for v in vals) if not floats else tuple(np.float64(v) for v in vals),
+        "tuple_0d_arrays": tuple(np.array(v) for v in vals),
+        "tuple_np_float32": tuple(np.float32(v) for v in vals),
+    }
+    if not floats:
+        if all(0 <= v <= 255 for v in vals):
+            sp["tuple_np_uint8"] = tuple(np.uint8(v) for v in vals)
+        sp["ndarray_int32"] = np.array(vals, dtype=np.int32)
+        sp["tuple_python_float"] = tuple(float(v) for v in vals)
+    return sp
+
+
+def scalar_spellings(v, floats=False):
+    sp = {"np_float32": np.float32(v), "0d_array": np.array(v)}
+    if floats:
+        sp["np_float64"] = np.float64(v)
+    else:
+        sp["np_int64"] = np.int64(v)
+        sp["np_uint8"] = np.uint8(v)
+        sp["python_float"] = float(v)
+    return sp
+
+
+def axes_spellings(axes):
+    axes = list(axes)
+    sp = {"list": list(axes), "ndarray": np.array(axes), "tuple_np_int64": tuple(np.int64(x) for x in axes)}
+    if len(axes) == 1:
+        sp["np_int64_scalar"] = np.int64(axes[0])
+        sp["python_int"] = int(axes[0])
+    return sp
+
+
+def snapshot(d):
+    arr = np.asarray(d.array)
+    return (arr.shape, str(arr.dtype), arr.tobytes(), tuple(float(x) for x in d.origin), tuple(float(x) for x in d.sampling))
+
+
+def run_spelled(a, method, kwargs, inplace, post=None):
+    """Execute d.<method>(**kwargs) on a fresh dataset. Returns ("ok", snapshot of the result) or ("exc", text, dataset unchanged?)."""
+    d = dataset(a)
+    before = snapshot(d)
+    try:
+        with warnings.catch_warnings():
+            warnings.simplefilter("ignore")
+            with np.errstate(all="ignore"):
+                r = getattr(d, method)(**kwargs)
+                if post is not None:
+                    r = post(d if inplace else r)
+    except Exception as e:
+        return ("exc", f"{type(e).__name__}: {e}", snapshot(d) == before)
+    res = d if (inplace and post is None) else r
+    if res is None or not hasattr(res, "array"):
+        return ("bad", f"returned {type(r).__name__}")
+    return ("ok", snapshot(res), snapshot(d) == before)
+
+
+def spelling_points(op, shape):
+    """(label of the canonical call, method, canonical kwargs, inplace?, {spelling label: kwargs}, post) for one op and shape."""
+    nd = len(shape)
+    pts = []
+    if op == "bin":
+        for axes in axis_subsets(nd):
+            for fac in _factors_123(shape, axes):
+                for red in REDUCERS:
+                    for mode in MODES:
+                        base = {"bin_factors": tuple(fac), "axes": tuple(axes), "reducer": red, "modify_in_place": mode == "inplace"}
+                        alts = {}
+                        for r in (red.capitalize(), red.upper(), red[0] + red[1:].upper()):
+                            alts["reducer=" + r] = dict(base, reducer=r)
+                        for k, v in seq_spellings(fac).items():
+                            alts["factors:" + k] = dict(base, bin_factors=v)
+                        if len(set(fac)) == 1:
+                            for k, v in scalar_spellings(fac[0]).items():
+                                alts["factor_scalar:" + k] = dict(base, bin_factors=v)
+                        for k, v in axes_spellings(axes).items():
+                            if k in ("np_int64_scalar", "python_int"):
+                                alts["axes:" + k] = dict(base, axes=v, bin_factors=int(fac[0]))
+                            else:
+                                alts["axes:" + k] = dict(base, axes=v)
+                        canon = dict(base)
+                        if len(axes) == 1 and False:
+                            pass
+                        pts.append((f"bin({tuple(fac)}, axes={tuple(axes)}, reducer={red!r}, modify_in_place={mode == 'inplace'})", "bin", canon, mode == "inplace", alts, None))
+    elif op == "resample":
+        for axes in axis_subsets(nd):
+            for o in itertools.product(*[sorted({max(1, shape[ax] // 2), shape[ax] + shape[ax] // 2, 2 * shape[ax]}) for ax in axes]):
+                for mode in MODES:
+                    base = {"out_shape": tuple(int(x) for x in o), "axes": tuple(axes), "modify_in_place": mode == "inplace"}
+                    alts = {}
+                    for k, v in seq_spellings(o).items():
+                        alts["out_shape:" + k] = dict(base, out_shape=v)
+                    for k, v in axes_spellings(axes).items():
+                        alts["axes:" + k] = dict(base, axes=v)
+                    fac = tuple(m / shape[ax] for ax, m in zip(axes, o))  # exactly representable: axis lengths are powers of two
+                    fbase = {"factors": fac, "axes": tuple(axes), "modify_in_place": mode == "inplace"}
+                    alts["factors:tuple"] = dict(fbase)
+                    for k, v in seq_spellings(fac, floats=True).items():
+                        alts["factors:" + k] = dict(fbase, factors=v)
+                    if len(set(fac)) == 1:
+                        alts["factor_scalar:python_float"] = dict(fbase, factors=float(fac[0]))
+                        for k, v in scalar_spellings(fac[0], floats=True).items():
+                            alts["factor_scalar:" + k] = dict(fbase, factors=v)
+                    pts.append((f"fourier_resample(out_shape={tuple(o)}, axes={tuple(axes)}, modify_in_place={mode == 'inplace'})", "fourier_resample", base, mode == "inplace", alts, None))
+    else:
+        for extra in itertools.product(range(3), repeat=nd):
+            widths = [widths_for(e) for e in extra]
+            out_shape = tuple(n + b + c for n, (b, c) in zip(shape, widths))
+            specs = tuple(crop_spec(b, c) for b, c in widths)
+            for mode in MODES:
+                base = {"output_shape": out_shape, "modify_in_place": mode == "inplace"}
+                alts = {}
+                for k, v in seq_spellings(out_shape).items():
+                    alts["output_shape:" + k] = dict(base, output_shape=v)
+                pw = tuple((int(b), int(c)) for b, c in widths)
+                alts["pad_width:tuple"] = {"pad_width": pw, "modify_in_place": mode == "inplace"}
+                alts["pad_width:lists"] = {"pad_width": [list(w) for w in pw], "modify_in_place": mode == "inplace"}
+                alts["pad_width:ndarray"] = {"pad_width": np.array(pw), "modify_in_place": mode == "inplace"}
+                alts["pad_width:tuple_np_int64"] = {"pad_width": tuple((np.int64(b), np.int64(c)) for b, c in pw), "modify_in_place": mode == "inplace"}
+                pts.append((f"pad(output_shape={out_shape}, modify_in_place={mode == 'inplace'})", "pad", base, mode == "inplace", alts, None))
+                # crop of the padded dataset: spellings of the widths and of the axes
+                cbase = {"crop_widths": specs, "modify_in_place": mode == "inplace"}
+                calts = {
+                    "crop_widths:lists": dict(cbase, crop_widths=[list(w) for w in specs]),
+                    "crop_widths:ndarray": dict(cbase, crop_widths=np.array(specs)),
+                    "crop_widths:tuple_np_int64": dict(cbase, crop_widths=tuple((np.int64(b), np.int64(c)) for b, c in specs)),
+                    "crop_widths:tuple_0d_arrays": dict(cbase, crop_widths=tuple((np.array(b), np.array(c)) for b, c in specs)),
+                    "crop_widths:tuple_python_float": dict(cbase, crop_widths=tuple((float(b), float(c)) for b, c in specs)),
+                    "axes:tuple": dict(cbase, axes=tuple(range(nd))),
+                    "axes:list": dict(cbase, axes=list(range(nd))),
+                    "axes:ndarray": dict(cbase, axes=np.arange(nd)),
+                    "axes:tuple_np_int64": dict(cbase, axes=tuple(np.int64(i) for i in range(nd))),
+                }
+                pts.append((f"pad(output_shape={out_shape}) then crop({specs}, modify_in_place={mode == 'inplace'})", "crop", cbase, mode == "inplace", calts, out_shape))
+    return pts
+
+
+def spelling_shapes(op, quick):
+    if op == "bin":
+        return [(4, 6), (4, 3, 4)] if quick else [(4, 6), (5, 4), (6,), (4, 3, 4), (2, 4, 6)]
+    if op == "resample":
+        return [(4, 4), (4, 2, 4)] if quick else [(4, 4), (2, 8), (8,), (4, 2, 4), (2, 4, 2)]
+    return [(3, 4), (2, 3, 2)] if quick else [(3, 4), (4, 3), (5,), (2, 3, 2)]
+
+
+def spelling_items(quick):
+    items = []
+    for op in ("bin", "resample", "pad"):
+        for shape in spelling_shapes(op, quick):
+            for dt in (["float64", "int16"] if quick else ["float64", "int16", "complex64", "float32"]):
+                items.append((op, shape, dt))
+    return items
+
+
+def spelling_item(item, seed=0):
+    op, shape, dtype = item[0], tuple(item[1]), item[2]
+    a0 = make_array(shape, dtype, seed, tag=9)
+    t = Tally()
+    with FreshModule() as fm:
+        fm.fresh()
+        for label, method, canon, inplace, alts, padded_to in spelling_points(op, shape):
+            a = a0
+            if padded_to is not None:  # crop works on the padded data
+                widths = [(b, c) for b, c in (widths_for(e - n) for e, n in zip(padded_to, shape))]
+                a = np.pad(a0, widths)
+            ref = run_spelled(a, method, canon, inplace)
+            case0 = {"op": "spelling", "op_kind": op, "shape": list(shape), "dtype": dtype, "canonical": label}
+            if ref[0] != "ok":
+                t.fail({"op": op, "relation": "canonical_spelling_works", "via": "spelling"}, dict(case0, spelling="canonical"), f"{dtype}{shape}.{label} (canonical spelling): {ref[1]}")
+                t.case(key=None, nontrivial=False, outcome=("spelling", "canonical-failed"))
+                continue
+            if not inplace and not ref[2]:
+                t.fail({"op": op, "relation": "copy_leaves_source", "via": "spelling"}, dict(case0, spelling="canonical"), f"{dtype}{shape}.{label}: the source dataset changed although modify_in_place=False")
+            for sname, kw in alts.items():
+                r = run_spelled(a, method, kw, inplace)
+                case = dict(case0, spelling=sname)
+                shown = ", ".join(f"{k}={v!r}" for k, v in kw.items())
+                cls = {"op": op, "relation": None, "spelling": sname.split("=")[0] if sname.startswith("reducer") else sname, "via": "spelling"}
+                if r[0] == "exc":
+                    t.extra["spelling_rejected"] += 1
+                    t.extra["spelling_rejected:" + op + ":" + (sname.split("=")[0] if sname.startswith("reducer") else sname)] += 1
+                    if not r[2]:
+                        t.fail(dict(cls, relation="rejected_spelling_changes_nothing"), case, f"{dtype}{shape}.{method}({shown}) raised {r[1]} but the dataset is no longer what it was before the call")
+                    t.case(key=None, nontrivial=False, outcome=("spelling", op, sname, "rejected"))
+                    continue
+                t.extra["spelling_accepted"] += 1
+                t.extra["spelling_accepted:" + op + ":" + (sname.split("=")[0] if sname.startswith("reducer") else sname)] += 1
+                if r[0] != "ok" or r[1] != ref[1]:
+                    if r[0] == "ok":
+                        ra = np.frombuffer(r[1][2], dtype=r[1][1]).reshape(r[1][0]) if r[1][0] == ref[1][0] and r[1][1] == ref[1][1] else None
+                        fa = np.frombuffer(ref[1][2], dtype=ref[1][1]).reshape(ref[1][0])
+                        what = (f"shape/dtype {r[1][0]} {r[1][1]} vs {ref[1][0]} {ref[1][1]}" if ra is None else
+                                f"first values {ra.ravel()[:4].tolist()} vs {fa.ravel()[:4].tolist()}, origin {r[1][3]} vs {ref[1][3]}, sampling {r[1][4]} vs {ref[1][4]}")
+                    else:
+                        what = r[1]
+                    t.fail(dict(cls, relation="accepted_spelling_equals_canonical"), case, f"{dtype}{shape}.{method}({shown}) was accepted but differs from the canonical {label}: {what}")
+                elif not inplace and not r[2]:
+                    t.fail(dict(cls, relation="copy_leaves_source"), case, f"{dtype}{shape}.{method}({shown}): the source dataset changed although modify_in_place=False")
+                t.case(key=("spelling", op, shape, dtype, label, sname), nontrivial=True, outcome=("spelling", op, sname, "accepted", r[0] == "ok" and r[1] == ref[1]))
+            t.extra["spelling_canonical_points"] += 1
+    return t
+
+
 # ============================================================================= enumeration
 def bin_items(quick):
     items = []
@@ -1235,6 +1616,8 @@ def run(ctx):
         "negative axis indices and permuted axis orders are spellings of the same axis subset and must give the same result (or be rejected with an exception, which would be reported as 'raises')",
         "origin/sampling alphabet: origin_k = 1 + 0.5k - 3(k mod 2), sampling_k = 0.5 + 0.25k (distinct per axis, exactly representable)",
         "integer data: |values| <= 1e9 so that float64 block sums are exact; int16 covers its whole range",
+        "memory layouts: the library keeps the array it is given; no operation writes into it on HEAD, so read-only and broadcast sources must work for in-place variants too; 0-d datasets are not explored",
+        "argument spellings: which spellings are accepted is the library's choice; a spelling must either raise and change nothing or give the bit-identical result of the canonical spelling",
         "module state: every lattice item and every call history starts from a freshly re-executed quantem.core.datastructures.dataset (importlib.reload semantics); "
         "a lattice point that fails is re-judged alone on a fresh module and, if it passes there, reported as a dependence on earlier calls with the shortest history found",
     )
@@ -1276,6 +1659,16 @@ def run(ctx):
     if ctx.tally.extra["history_sequences"] < len(halpha) ** 2:
         raise Broken("call-history part did not enumerate every ordered pair")
 
+    litems = layout_items(quick)
+    ctx.say(f"memory layouts: {len(litems)} (op, shape, dtype) items x {len(LAYOUTS)} layouts")
+    ctx.pmap(layout_item, sorted(litems, key=lambda it: -len(layout_calls(*it))), chunk=1, label="layouts", seed=ctx.seed)
+    sitems = spelling_items(quick)
+    ctx.say(f"argument spellings: {len(sitems)} (op, shape, dtype) items")
+    ctx.pmap(spelling_item, sorted(sitems, key=lambda it: -int(np.prod(it[1])) * 3 ** len(it[1])), chunk=1, label="spellings", seed=ctx.seed)
+    exl = ctx.tally.extra
+    if any(exl["layout_points_" + lay] < 500 for lay in LAYOUTS) or exl["spelling_accepted"] < 1000 or exl["spelling_rejected"] < 100:
+        raise Broken("layout / spelling sub-lattices degenerate")
+
     pitems = pad_items(quick)
     ctx.say(f"pad/crop: {len(pitems)} (shape, dtype) items")
     ctx.pmap(pad_item, pitems, chunk=1, label="pad-crop", seed=ctx.seed)
@@ -1306,6 +1699,16 @@ def run(ctx):
                 "modes": MODES,
                 "delta_basis": "complete basis of every 1-D/2-D input shape (x (1+2j) for complex dtypes), every output shape",
                 "up_then_down": "delta basis and one seeded array with the Nyquist rows removed; every up-shape with n..2n+1 per axis",
+            },
+            "memory_layouts": {
+                "layouts": LAYOUTS,
+                "items": [[it[0], list(it[1]), it[2]] for it in litems],
+                "sub_lattice": "bin: every axis subset x factors {1,2,3}^k x reducers x modes; resample: every axis subset x per-axis output {n-1, n+1, 2n} x modes; pad/crop: extra {0,1,2} per axis x modes x {all, axis_by_axis}",
+            },
+            "argument_spellings": {
+                "items": [[it[0], list(it[1]), it[2]] for it in sitems],
+                "spellings": "reducer in other letter cases; factors / out_shape / output_shape / pad_width / crop_widths / axes as list, ndarray, tuples of np.int64 / np.uint8 / 0-d arrays / np.float32 / Python floats, scalars as np.int64 / np.uint8 / np.float32 / np.float64 / 0-d array; factors vs out_shape form",
+                "oracle": "rejected (exception, dataset unchanged) or bit-identical to the canonical spelling",
             },
             "call_histories": {
                 "alphabet": [call_text(c) for c in halpha],
@@ -1341,6 +1744,22 @@ def run(ctx):
 def replay(ctx, case):
     op = case["op"]
     seed = ctx.seed
+    if op == "layout":
+        t = layout_item((case["op_kind"], case["shape"], case["dtype"]), seed=seed)
+        for f in t.fails:
+            if f["case"] == case:
+                print("  observed:", f["msg"])
+                ctx.fail(f["cls"], case, f["msg"])
+        print(f"  expected: the same result as for a C-contiguous array with the same logical contents (layout {case['layout']!r}), source array untouched")
+        return
+    if op == "spelling":
+        t = spelling_item((case["op_kind"], case["shape"], case["dtype"]), seed=seed)
+        for f in t.fails:
+            if f["case"] == case:
+                print("  observed:", f["msg"])
+                ctx.fail(f["cls"], case, f["msg"])
+        print("  expected: the spelling is rejected with an exception and nothing changes, or it gives the bit-identical result of the canonical spelling")
+        return
     if op == "history":
         hist = case["history"]
         with FreshModule() as fm:
